@@ -356,6 +356,8 @@ pub struct GenCfg {
     pub one_container_per_kind: bool,
     /// container sorts whose elements are themselves containers (Vec/Set/MultiSet of an earlier container sort)
     pub nested_containers: bool,
+    /// make one e-class sort reachable from the other sorts ONLY through a nested container
+    pub isolate_behind_nested: bool,
 }
 
 impl Default for GenCfg {
@@ -383,6 +385,7 @@ impl Default for GenCfg {
             delete_nonminting_only: false,
             one_container_per_kind: false,
             nested_containers: false,
+            isolate_behind_nested: false,
         }
     }
 }
@@ -510,6 +513,51 @@ pub fn gen_sig(rng: &mut Rng, cfg: &GenCfg) -> Sig {
             }
             sig.ctors.push(Ctor { name: format!("{p}C{cn}"), args, out: s, cost: None, unextractable: false });
             cn += 1;
+        }
+    }
+    if cfg.isolate_behind_nested && ns >= 2 {
+        // a nested container sort whose innermost elements are e-classes of some sort s1
+        let reaches = |sig: &Sig, t: &Ty, s1: usize| -> bool {
+            let mut cur = t.clone();
+            loop {
+                match cur {
+                    Ty::Eq(s) => return s == s1,
+                    Ty::I64 => return false,
+                    Ty::Cont(i) => cur = sig.conts[i].a.clone(),
+                }
+            }
+        };
+        let nested: Vec<(usize, usize)> = sig
+            .conts
+            .iter()
+            .enumerate()
+            .filter_map(|(j, c)| match &c.a {
+                Ty::Cont(i) => match &sig.conts[*i].a {
+                    Ty::Eq(s1) => Some((j, *s1)),
+                    _ => None,
+                },
+                _ => None,
+            })
+            .collect();
+        if let Some((j, s1)) = nested.first().copied() {
+            let conts = sig.clone();
+            for c in sig.ctors.iter_mut().filter(|c| c.out != s1) {
+                let out = c.out;
+                for a in c.args.iter_mut() {
+                    let through_other = match a {
+                        Ty::Cont(k) => *k != j && reaches(&conts, &Ty::Cont(*k), s1),
+                        Ty::Eq(s) => *s == s1,
+                        Ty::I64 => false,
+                    };
+                    if through_other {
+                        *a = Ty::Eq(out);
+                    }
+                }
+            }
+            let other = (0..ns).find(|s| *s != s1).unwrap();
+            if !sig.ctors.iter().any(|c| c.out != s1 && c.args.contains(&Ty::Cont(j))) {
+                sig.ctors.push(Ctor { name: format!("{p}C{cn}"), args: vec![Ty::Cont(j)], out: other, cost: None, unextractable: false });
+            }
         }
     }
     if cfg.costs {
